@@ -77,11 +77,14 @@ func (tp *TagParser) parseMapValue(tag string) (string, string) {
 	for i < len(tag) && tag[i] != c {
 		i++
 	}
-	if i+1 < len(tag) && tag[i+1] == ',' {
-		i++
+	if c != ',' && i < len(tag) {
+		i++ // the closing quote belongs to the value (also when the value is the last one)
 	}
 	value := tag[:i]
 	tag = tag[i:]
+	if len(tag) > 0 && tag[0] == ',' {
+		tag = tag[1:] // the separator is neither a value nor a name
+	}
 	return tag, value
 }
 
